@@ -627,8 +627,8 @@ def main(tier, replay=None):
                             combo.append({'cache': cache, 'eio': (d, sub, j), 'removed': o})
                     allf.append({'cache': cache, 'file': (d, sub), 'limit': None})
                     allf.append({'cache': cache, 'file': (d, sub), 'limit': 3})
-            pmap(R.scrub_combo_case, combo)
             pmap(R.scrub_allfail_case, allf)
+            pmap(R.scrub_combo_case, combo)
             scc = scc + combo + allf
         if gi == 0:
             # replay of the Coq witnesses, one-shot (no preliminary interrupted sync), judged by the same oracle
